@@ -1,0 +1,52 @@
+//go:build verif
+
+// Contracts of this package for the deductive verifier in /verif (vcgo).
+// Comment-only; compiled only with -tags verif.
+
+package server
+
+//@ nonnil Server.conf Server.upstreamServer Server.logger
+//@ immutable Server.conf Server.upstreamServer
+
+// ---- rebalancing is started only when enabled (C19) ---------------------------------
+// A threshold of zero disables rebalancing: the periodic Rebalance loop is then
+// never started, so no connection is shed.
+
+//@ ghost gSpawned int
+
+//@ contract (*Server).runGoroutine
+//@   trusted runs f in a goroutine tracked by the server's WaitGroup (goroutines are not modelled; the call is only counted)
+//@   modifies-all $gSpawned
+//@   ghost-set gSpawned = old(gSpawned) + 1
+
+//@ contract (*Server).startUpstreamServer
+//@   serves C19 C20
+//@   ensures[rebalance-only-when-enabled] gSpawned == old(gSpawned) + (!feq(s.conf.Upstream.Rebalance.Threshold, 0.0) ? 2 : 1)
+
+// ---- graceful shutdown order (C18, in part) -------------------------------------------
+// The node first stops being ready, then drops its upstream connections (so
+// that other nodes stop routing to it), then stops proxying, then tells the
+// cluster it leaves while the gossip listeners are still open, closes gossip,
+// and closes the admin port last. A ghost step counter records the order in
+// which the (trusted) component operations are invoked.
+
+//@ ghost gShutStep int
+//@ ghost tReadyOff int
+//@ ghost tUpDown int
+//@ ghost tProxyDown int
+//@ ghost tLeave int
+//@ ghost tGossipClose int
+//@ ghost tAdminDown int
+
+//@ nonnil Server.adminServer Server.proxyServer Server.gossiper Server.shutdown
+//@ extern go.uber.org/atomic.(*Bool).CompareAndSwap
+//@ extern sync.(*WaitGroup).Wait
+
+//@ contract (*Server).Shutdown
+//@   serves C18
+//@   requires[fresh-step] gShutStep == 0 && tReadyOff == 0 && tUpDown == 0 && tProxyDown == 0 && tLeave == 0 && tGossipClose == 0 && tAdminDown == 0
+//@   requires[env-started] s.gossiper != nil && s.rebalanceCancel != nil && s.stopJWKSRefresher != nil
+//@   opt dyncall ShutdownCallback
+//@   ensures[order] 0 < tReadyOff && tReadyOff < tUpDown && tUpDown < tProxyDown && tProxyDown < tLeave && tLeave < tGossipClose && tGossipClose < tAdminDown
+//@ contract ShutdownCallback
+//@   trusted the stored cancel functions (JWKS refresher, rebalance loop): they touch none of the state under contract
